@@ -14,7 +14,9 @@ ID = "C11"
 LEVEL = "exploration"
 RULE = ("one case = generated module of tagged test/arith ops (nested regions, multi-block regions, block arguments) x "
         "random subset of 25 terminating pattern kinds x one of 8 walker configurations x {bare pattern, applier, "
-        "applier+dce, applier+folding, applier+dce+folding} x worklist perturbation p in {0, 0.3, 1}; non-trivial = >= 3 "
+        "applier+dce, applier+folding, applier+dce+folding} x worklist perturbation p in {0, 0.3, 1} x post_walk_func in "
+        "{none, region_dce, mutating test hook, no-op hook} (with unreachable blocks / dead ops and, in 45% of the hook "
+        "cases, a pattern set that never matches); non-trivial = >= 3 "
         "mutating pattern invocations by >= 2 distinct acting pattern kinds (the applier's own DCE/folding counts as one "
         "kind); distinct by hash of (pattern set, canonical form of the input module, walker configuration, pop order)")
 LEVEL_TEXT = ("Every pattern invocation of every generated driver run is recorded by a monitoring pattern wrapper (before / "
@@ -97,6 +99,9 @@ def work(job):
             f"recursive={int(cfg['apply_recursively'])}")
         add("mode:" + cfg["mode"])
         add(f"perturb:p={cfg['perturb']}")
+        add("hook:" + cfg["hook"])
+        if cfg["inert_patterns"]:
+            add("cases_without_any_matching_pattern")
         add("perturbed_pops", r["perturbed_pops"])
         add("pops", len(r["pops"]))
         add("initial_ops", r["n0"])
@@ -160,6 +165,13 @@ def finish(agg, tier):
     for p in L.PERTURB:
         if c.get(f"perturb:p={p}", 0) < 500 * mult:
             inc.append(f"perturbation p={p} only {c.get(f'perturb:p={p}', 0)} cases")
+    for h in L.HOOKS:
+        if c.get("hook:" + h, 0) < 200 * mult:
+            inc.append(f"post_walk_func configuration {h} only {c.get('hook:' + h, 0)} cases")
+    for k, m in (("hook_calls_mutating", 200), ("hook_only_change_cases", 60), ("fixpoint_hook_reruns", 150),
+                 ("hook_blocks_removed", 50), ("hook_ops_removed", 300)):
+        if c.get(k, 0) < m * mult:
+            inc.append(f"monitor {k} reached {c.get(k, 0)} < {m * mult}")
     for p in L.PATTERNS:
         if c.get("acted:" + p.__name__, 0) < 10 * mult:
             inc.append(f"pattern {p.__name__} acted only {c.get('acted:' + p.__name__, 0)} times")
